@@ -349,7 +349,7 @@ def execOp (o : Op) (s : St) : Res St :=
   | .strCopyStd d n src src2 =>
     match s.buf d, s.nat n, s.get src with
     | some b, some n, some (.str t) =>
-      if src == src2 then liftBuf s d (strCopy b n (some (t ++ [NUL])) (t.length : Int)) else .oob
+      if src == src2 then liftBuf s d (strCopy b n (some (t ++ [NUL])) (narrow32 t.length)) else .oob   -- `int nsrc = s.size()`
     | _, _, _ => .oob
   | .strCopyNull d n =>
     match s.buf d, s.nat n with
